@@ -7,9 +7,11 @@ import (
 	"encoding/binary"
 	"encoding/hex"
 	"fmt"
+	"io"
 	"math"
 	"math/big"
 	"net"
+	"net/http"
 	"os"
 	"sort"
 	"strings"
@@ -20,6 +22,7 @@ import (
 	"github.com/codelaboratoryltd/bng/pkg/dhcp"
 	"github.com/codelaboratoryltd/bng/pkg/dhcpv6"
 	"github.com/codelaboratoryltd/bng/pkg/ebpf"
+	"github.com/codelaboratoryltd/bng/pkg/nexus"
 	"github.com/insomniacslk/dhcp/dhcpv4"
 	"go.uber.org/zap"
 )
@@ -57,10 +60,11 @@ func pairs(m map[uint64]string) string { // key -> rendered value, sorted by key
 // ------------------------------------------------------------------ DHCPv4
 
 type Case4 struct {
-	Net   uint32 `json:"net"`   // network address
-	Bits  int    `json:"bits"`  // prefix length
-	GW    uint32 `json:"gw"`    // gateway
-	Lease int    `json:"lease"` // seconds
+	Net   uint32 `json:"net"`             // network address
+	Bits  int    `json:"bits"`            // prefix length
+	GW    uint32 `json:"gw"`              // gateway
+	Lease int    `json:"lease"`           // seconds
+	Alloc bool   `json:"alloc,omitempty"` // external allocator configured (nexus.HTTPAllocator over a scripted RoundTripper)
 	Ops   []Op4  `json:"ops"`
 }
 
@@ -77,6 +81,7 @@ type Op4 struct {
 	Relay  bool   `json:"relay,omitempty"`
 	Cid    int    `json:"cid,omitempty"` // 0 none, 1 "A", 2 "B"
 	D      int    `json:"d,omitempty"`   // advance seconds
+	Lk     string `json:"lk,omitempty"`  // allocator configuration: answer of LookupIPv4 during this message: hit miss err ("" = miss)
 }
 
 func ip4(v uint32) net.IP { b := make([]byte, 4); binary.BigEndian.PutUint32(b, v); return net.IP(b) }
@@ -109,6 +114,40 @@ type srv4 struct {
 	s    *dhcp.Server
 	c    *Case4
 	vnow int64
+	lk   string // the allocator's answer during the current message
+	bad  string // protocol error seen by the fake allocator
+}
+
+// nexAddr: the address the (scripted) external allocator holds for client c: 10.99.0.(c+1).  The
+// oracle is injective (one address per MAC) and its addresses lie outside the local pools.
+func nexAddr(c int) uint32 { return 10<<24 | 99<<16 | uint32(c+1) }
+
+// RoundTrip is the in-process Nexus: pool info is always served; GET /api/v1/allocations/<mac>
+// answers as the current op's oracle says (hit: the MAC's own address; miss: 404; err: 500).
+func (v *srv4) RoundTrip(r *http.Request) (*http.Response, error) {
+	body, code := "{}", 404
+	switch {
+	case strings.Contains(r.URL.Path, "/api/v1/pools/"):
+		body, code = `{"id":"p","cidr":"10.99.0.0/24","prefix":32,"gateway":"10.99.0.254"}`, 200
+	case strings.Contains(r.URL.Path, "/api/v1/allocations/") && r.Method == "GET":
+		macS := r.URL.Path[strings.LastIndex(r.URL.Path, "/")+1:]
+		m, err := net.ParseMAC(macS)
+		if err != nil || len(m) != 6 {
+			v.bad = "lookup for a subscriber id that is not a MAC: " + macS
+			code = 500
+			break
+		}
+		switch v.lk {
+		case "hit":
+			body, code = fmt.Sprintf(`{"pool_id":"p","subscriber_id":%q,"ip":%q}`, macS, ip4(nexAddr(int(m[5])-1)).String()), 200
+		case "err":
+			body, code = `{"error":"boom"}`, 500
+		}
+	default:
+		v.bad = "unexpected allocator call " + r.Method + " " + r.URL.Path
+		code = 500
+	}
+	return &http.Response{StatusCode: code, Body: io.NopCloser(strings.NewReader(body)), Header: http.Header{}, Request: r}, nil
 }
 
 func newSrv4(c *Case4) *srv4 {
@@ -130,7 +169,11 @@ func newSrv4(c *Case4) *srv4 {
 	if err != nil {
 		panic(err)
 	}
-	return &srv4{s: s, c: c}
+	v := &srv4{s: s, c: c}
+	if c.Alloc {
+		s.SetHTTPAllocator(nexus.NewHTTPAllocator("http://nexus.invalid", nexus.WithHTTPClient(&http.Client{Transport: v})), "p")
+	}
+	return v
 }
 
 // expiry in virtual time.  A lease granted at virtual instant t0 for L seconds and aged by the
@@ -236,6 +279,10 @@ func (v *srv4) resolve(o Op4) Op4 {
 				o.Req = uint32(u32(ip))
 			}
 		}
+	case "nx": // the address the allocator holds for this client
+		o.Req = nexAddr(o.C)
+	case "nxother": // the address the allocator holds for another client
+		o.Req = nexAddr((o.C + 1) % 3)
 	case "net":
 		o.Req = v.c.Net
 	case "bcast":
@@ -275,6 +322,8 @@ var msgTypes = map[string]dhcpv4.MessageType{"discover": dhcpv4.MessageTypeDisco
 // exec runs one concrete op on the real server; returns the Coq (op, out) pair.
 func (v *srv4) exec(o Op4) string {
 	var opT, rep string
+	v.lk = o.Lk
+	defer func() { v.lk = "" }()
 	switch o.K {
 	case "advance":
 		v.s.VerifC02AgeLeases(time.Duration(o.D) * time.Second)
@@ -370,6 +419,19 @@ func (v *srv4) exec(o Op4) string {
 		opT = k + " " + v.msgTerm(o)
 	}
 	_, sn := v.snapshot()
+	if v.bad != "" {
+		rep = "RInformAck (* " + v.bad + " *)"
+	}
+	if v.c.Alloc {
+		lk := "LkMiss"
+		switch o.Lk {
+		case "hit":
+			lk = "LkHit " + vh.N(uint64(nexAddr(o.C)))
+		case "err":
+			lk = "LkErr"
+		}
+		opT = "(" + opT + ", " + lk + ")"
+	}
 	return "(" + opT + ",\n   (" + rep + ", " + sn + "))"
 }
 
@@ -413,6 +475,13 @@ func run4once(c Case4) vh.Case {
 		o = v.resolve(o)
 		conc.Ops = append(conc.Ops, o)
 		tags["op:"+o.K] = true
+		if c.Alloc && o.K != "advance" && o.K != "cleanup" {
+			lk := o.Lk
+			if lk == "" {
+				lk = "miss"
+			}
+			tags["allocator-lookup:"+lk] = true
+		}
 		if o.Relay && o.Cid != 0 {
 			guard = false
 		}
@@ -434,6 +503,9 @@ func run4once(c Case4) vh.Case {
 	}
 	size := uint64(1) << (32 - c.Bits)
 	cfg := fmt.Sprintf("{| c_net := %d; c_size := %d; c_gw := %d; c_lt := %d |}", c.Net, size, c.GW, c.Lease)
+	if c.Alloc {
+		tags["config:external-allocator"] = true
+	}
 	return vh.Case{Coq: "(" + cfg + ",\n  " + vh.List(tr) + ")", Desc: Case{Proto: "v4", V4: &conc},
 		Tags: tagList(tags, fmt.Sprintf("v4:pool/%d", c.Bits), fmt.Sprintf("len:%d", len(c.Ops)/10*10))}
 }
@@ -603,6 +675,61 @@ func boundary4(pool Case4, relayCid int, renews, mids []int, emit func(Case4)) {
 	}
 }
 
+// alphabet4h: allocator configuration.  Lookup hit / miss / error on DISCOVER; REQUEST for the
+// client's own allocator address (hit / miss), for another client's allocator address, for the
+// gateway, for another client's held address, for the own (local) address; RELEASE.
+func alphabet4h(nc int, full bool) []Op4 {
+	var a []Op4
+	for c := 0; c < nc; c++ {
+		a = append(a,
+			Op4{K: "discover", C: c, Lk: "hit"},
+			Op4{K: "discover", C: c, Lk: "miss"},
+			Op4{K: "request", C: c, Sym: "nx", Lk: "hit"},
+			Op4{K: "request", C: c, Sym: "nx", Lk: "miss"},
+			Op4{K: "request", C: c, Sym: "nxother", Lk: "hit"},
+			Op4{K: "request", C: c, Sym: "gw", Lk: "hit"},
+			Op4{K: "request", C: c, Sym: "other", Lk: "miss"},
+			Op4{K: "request", C: c, Sym: "own", Lk: "miss"},
+			Op4{K: "release", C: c},
+		)
+		if full {
+			a = append(a,
+				Op4{K: "discover", C: c, Lk: "err"},
+				Op4{K: "request", C: c, Sym: "other", Lk: "hit", UseCi: true},
+				Op4{K: "request", C: c, Sym: "out", Lk: "err"},
+				Op4{K: "request", C: c, Sym: "bcast", Lk: "miss"},
+				Op4{K: "request", C: c, Sym: "none", Lk: "hit"},
+				Op4{K: "decline", C: c, Sym: "own"},
+				Op4{K: "decline", C: c, Sym: "nxother"},
+			)
+		}
+	}
+	return append(a, Op4{K: "advance", D: lease4 + 1}, Op4{K: "cleanup"})
+}
+
+// rand4h: a random case of the allocator configuration (no shared circuit-ids: K02a is the same
+// code in both configurations and has its own stream)
+func rand4h(r *vh.Rng, maxOps int) Case4 {
+	c := rand4(r, maxOps)
+	c.Alloc = true
+	for i := range c.Ops {
+		o := &c.Ops[i]
+		if o.K == "advance" || o.K == "cleanup" {
+			continue
+		}
+		o.Lk = []string{"hit", "hit", "miss", "miss", "err"}[r.Intn(5)]
+		if o.Relay && o.Cid != 0 {
+			o.Cid = o.C + 1
+		}
+		if o.K == "request" || o.K == "decline" || o.K == "release" {
+			if r.Chance(1, 3) {
+				o.Sym = []string{"nx", "nx", "nxother"}[r.Intn(3)]
+			}
+		}
+	}
+	return c
+}
+
 func rand4(r *vh.Rng, maxOps int) Case4 {
 	ps := pools4()
 	c := ps[r.Intn(len(ps))]
@@ -668,6 +795,17 @@ Definition cases : list case4 := [
 const footer4 = `
 ].
 Definition R := Eval vm_compute in run_cases4 cases.
+Print R.
+`
+
+const header4h = `From Coq Require Import NArith List. Import ListNotations.
+From Verif Require Import Model.Dhcp4 Model.Dhcp4Alloc Model.Dhcp6 Model.DhcpSpec Model.DhcpCheck.
+Local Open Scope N_scope.
+Definition cases : list case4h := [
+`
+const footer4h = `
+].
+Definition R := Eval vm_compute in run_cases4h cases.
 Print R.
 `
 
@@ -1157,14 +1295,17 @@ func main() {
 			panic(err)
 		}
 		vc, is6 := runCase(c)
-		if is6 {
+		switch {
+		case is6:
 			vh.Emit(cfg, "dhcp6", header6, footer6, []vh.Case{vc}, nil)
-		} else {
+		case c.V4.Alloc:
+			vh.Emit(cfg, "dhcp4h", header4h, footer4h, []vh.Case{vc}, nil)
+		default:
 			vh.Emit(cfg, "dhcp4", header4, footer4, []vh.Case{vc}, nil)
 		}
 		return
 	}
-	var c4, c6 []vh.Case
+	var c4, c4h, c6 []vh.Case
 	for _, f := range vh.CorpusFiles(cfg) {
 		var c Case
 		if err := vh.LoadReplay(f, &c); err != nil {
@@ -1172,11 +1313,17 @@ func main() {
 		}
 		vc, is6 := runCase(c)
 		vc.Tags = append(vc.Tags, "corpus:"+strings.TrimSuffix(f[strings.LastIndex(f, "/")+1:], ".json"))
-		if is6 {
+		switch {
+		case is6:
 			c6 = append(c6, vc)
-		} else {
+		case c.V4.Alloc:
+			c4h = append(c4h, vc)
+		default:
 			c4 = append(c4, vc)
 		}
+	}
+	if len(c4h) > 0 {
+		vh.Emit(cfg, "corpus4h", header4h, footer4h, c4h, nil)
 	}
 	if len(c4) > 0 {
 		vh.Emit(cfg, "corpus4", header4, footer4, c4, nil)
@@ -1230,6 +1377,22 @@ func main() {
 	emit("dhcp4x", header4, footer4, x4, ex)
 	emit("dhcp4b", header4, footer4, b4, map[string]interface{}{"exhaustive": true, "note": "lease-expiry boundary scripts: renew? x advance{L-1,L,L+1} x tick? x 5 actions x tick? x 2 probes"})
 	emit("dhcp6x", header6, footer6, x6, ex)
+	// allocator configuration: exhaustive part then random part in one stream
+	var h4 []vh.Case
+	addh := func(c Case4) { c.Alloc = true; h4 = append(h4, run4(c)) }
+	nh := 60
+	if !cfg.Thorough() {
+		enum4(p4[0], alphabet4h(2, false), 2, false, addh) // 20^2
+	} else {
+		nh = 600
+		enum4(p4[0], alphabet4h(2, true), 2, false, addh) // 34^2
+		enum4(p4[0], alphabet4h(2, false), 3, true, addh) // 20^3 modulo client renaming
+		enum4(p4[2], alphabet4h(2, false), 3, true, addh)
+	}
+	for i := 0; i < nh; i++ {
+		h4 = append(h4, run4(rand4h(r.Fork(), maxOps)))
+	}
+	emit("dhcp4h", header4h, footer4h, h4, map[string]interface{}{"note": "allocator configuration: exhaustive over alphabet4h to the stated depth, then random"})
 	// random part
 	var r4, r6 []vh.Case
 	for i := 0; i < n4; i++ {
